@@ -625,3 +625,64 @@ def rule_presence_decided_by_info(ctx):
                     ctx.holds("PRESENCE", key, f.where(line), "%s() runs exactly when %s() reported the part (%s)" % (writer, info, ", ".join(sorted(allowed))), nontrivial=True)
     ctx.floor("PRESENCE", 2, n, "(optional parts copied under a presence test)")
     return n
+
+
+def rule_chunked_both_forms(ctx):
+    """CHUNKFORMS (C18): hrepack describes an object's chunking with `chunk_flags`, and "chunked" has two spellings: HDF_CHUNK and
+    HDF_CHUNK | HDF_COMP (chunked and compressed - what an object that is compressed in the input arrives as).  Wherever
+    options_get_info decides "this object is chunked, so the requested compression goes into the chunk definition" it accepts
+    both: a test of `*chunk_flags == HDF_CHUNK` stands in a disjunction with `*chunk_flags == (HDF_CHUNK | HDF_COMP)`.  A
+    test of one spelling only leaves an already compressed object with its old method while every other object gets the new
+    one."""
+    from .codec import ast_walk
+    from .facts import kind, strip, walk, render, int_val, is_int
+    prog = ctx.prog
+    n = 0
+    for f in prog.funcs:
+        ast = f.raw.get("ast")
+        if not ast or not f.rel.endswith("mfhdf/hrepack/hrepack_utils.c"):
+            continue
+        params = {(p[0] if isinstance(p, (list, tuple)) else p.get("name")) for p in f.params}
+        if "chunk_flags" not in params:
+            continue
+        k = 0
+
+        def flag_tests(c):
+            out = set()
+            for x in walk(c, True):
+                if x[0] == "bin" and x[1] == "==":
+                    for a_, b_ in ((strip(x[2]), strip(x[3])), (strip(x[3]), strip(x[2]))):
+                        if kind(a_) == "deref" and kind(strip(a_[1])) == "var" and strip(a_[1])[1] == "chunk_flags" and is_int(b_):
+                            out.add(int_val(b_))
+            return out
+
+        found = []
+
+        def vis(nd, st):
+            if nd[0] == "s" and nd[1] is not None:
+                for x in walk(nd[1], True):
+                    if x[0] == "asg" and x[1] == "=" and kind(strip(x[2])) == "deref" and kind(strip(strip(x[2])[1])) == "var" and strip(strip(x[2])[1])[1] == "chunk_flags" and is_int(x[3]) and int_val(x[3]) == 3:
+                        encl = [a for a in st if a[0] == "if" and a[1] is not None]
+                        if encl:
+                            found.append(encl[-1])
+            return True
+
+        ast_walk(ast, vis)
+        for nd in found:
+            k += 1
+            n += 1
+            key = "CHUNKFORMS:%s#%d" % (f.name, k)
+            line = nd[-3] if isinstance(nd[-3], int) else f.line
+            vals = flag_tests(nd[1])
+            global_case = any(x[0] == "mem" and x[2] == "chunk_g" for x in walk(nd[1], True))
+            # HDF_CHUNK = 1, HDF_COMP = 2
+            if global_case:
+                ctx.holds("CHUNKFORMS", key, f.where(line), "the global chunking applies to this object: its chunk definition is built from the options", nontrivial=False)
+            elif 1 in vals and 3 in vals:
+                ctx.holds("CHUNKFORMS", key, f.where(line), "the decision accepts both spellings of \"chunked\"", nontrivial=True)
+            elif 1 in vals:
+                ctx.violated("CHUNKFORMS", key, f.where(line), "the merge of chunking and compression is decided on `*chunk_flags == HDF_CHUNK` alone: an object that arrives chunked-and-compressed is passed over and keeps its old compression method")
+            else:
+                ctx.violated("CHUNKFORMS", key, f.where(line), "the merge of chunking and compression is decided without looking at `*chunk_flags`: an object that is chunked in the input (and stays so) never gets the requested compression")
+    ctx.floor("CHUNKFORMS", 3, n, "(decisions in options_get_info that merge compression into an existing chunking)")
+    return n
